@@ -13,7 +13,7 @@ use std::collections::BTreeSet;
 pub const DEF: PropDef = PropDef {
     id: "C10",
     level: "exploration",
-    rule: "all programs that build a dictionary from every ordered selection of k=2,3 (thorough also 4) keys out of {\"p\",\"q\",\"r\",true,null,mysterious,\"true\",\"null\",\"9\",\"10\",\"1a\",\"\"} and then apply one of 27 operations (join with/without delimiter, join with a non-string value at each key position, print, compare, copy, every erroring statement whose message renders the array, array used as key), plus a parse/lint/runtime-error corpus; each program is run under hash seeds 0,1,2,... in fresh threads until every one of the k! iteration orders of its dictionary has been observed (cap 64 / 600 seeds); stdout, result, error text, parse errors and lint reports must be byte-identical across all runs; non-trivial = at least two different iteration orders were actually exercised for the program; distinct = distinct program text",
+    rule: "all programs that build a dictionary from every ordered selection of k=2,3 (thorough also 4) keys out of {\"p\",\"q\",\"r\",true,null,mysterious,\"true\",\"null\",\"9\",\"10\",\"1a\",\"\"} and then apply one of 27 operations (join with/without delimiter, join with a non-string value at each key position, print, compare, copy, every erroring statement whose message renders the array, array used as key), plus a parse/lint/runtime-error corpus; plus the confusable-keys family (pairs / triples of keys that truncation at 7..1000 characters, case folding, trimming, normalisation, numeric reading or escaping would merge, every insertion order); plus histories (all ordered pairs of 52 programs run one after the other on one thread: the second must behave as it does alone); each program is run under hash seeds 0,1,2,... in fresh threads until every one of the k! iteration orders of its dictionary has been observed (cap 64 / 600 seeds); stdout, result, error text, parse errors and lint reports must be byte-identical across all runs; non-trivial = at least two different iteration orders were actually exercised for the program; distinct = distinct program text",
     assumptions: &[
         "seed control relies on std resolving getrandom through a weak symbol; ./check selftest fails loudly if the same seed stops giving the same order or different seeds stop giving different orders",
         "a dictionary whose orders were not all reached within the seed cap is reported in the evidence as partially covered",
@@ -144,6 +144,16 @@ fn build(tier: Tier) -> Box<dyn Check> {
         }
     }
     fams.push(("confusable-keys".to_string(), Space::of(conf)));
+    // histories: program p, then program q, on one thread: q must behave as it does alone (no state
+    // survives a run: caches, memo tables, scratch buffers, interned names, thread-locals)
+    let mut hset: Vec<String> = corpus::VALID.iter().map(|s| s.to_string()).collect();
+    for s in ["say 1\nelse\n", "put 1 into\n", "say x\n", "put 5 into x\nput 5 into x\nsay x at 0\n", "let x at \"a\" be 1\nlet x at \"b\" be 2\njoin x\n", "fun takes k\ngive back k\n\nsay fun taking 1\n", "fun takes k\ngive back k plus 1\n\nsay fun taking 1\n", "put 1 into fun\nsay fun taking 1\n", "listen to x\nsay x\n", "say it\n", "put 2 into x\nsay it\n", ""] {
+        hset.push(s.to_string());
+    }
+    let hs: Space<usize> = Space::of((0..hset.len()).collect());
+    let hset = std::rc::Rc::new(hset);
+    let h2 = hset.clone();
+    fams.push(("histories".to_string(), hs.seq_exact(2).map(move |v| (format!("{}\u{1}{}", h2[v[0]], h2[v[1]]), usize::MAX))));
     // many keys: the table rehashes on the way (orders are not exhaustible: run under every seed up to the cap)
     let mut many = Vec::new();
     for n in [5usize, 8, 9, 16, 17, 33] {
@@ -158,7 +168,17 @@ fn build(tier: Tier) -> Box<dyn Check> {
 
 /// one run under a seed: (observable result, iteration-order signature of the dictionary (read from the untouched copy dd))
 fn run_under_seed(text: String, seed: u64) -> Result<(String, String), String> {
-    let r = with_seed(seed, move || {
+    run_history_under_seed(vec![text], seed).map(|mut v| v.pop().unwrap())
+}
+
+/// the texts are parsed, linted and executed one after the other on ONE fresh thread
+fn run_history_under_seed(texts: Vec<String>, seed: u64) -> Result<Vec<(String, String)>, String> {
+    let r = with_seed(seed, move || texts.into_iter().map(run_one_text).collect::<Vec<_>>());
+    r.map_err(|_| crate::engine::worker::take_panic())
+}
+
+fn run_one_text(text: String) -> (String, String) {
+    {
         use rrss::analysis::visit::VisitProgram;
         use rrss::exec::environment::Environment;
         use rrss::exec::exec_stmt::ExecStmt;
@@ -187,8 +207,7 @@ fn run_under_seed(text: String, seed: u64) -> Result<(String, String), String> {
             }
         }
         (obs, order)
-    });
-    r.map_err(|_| crate::engine::worker::take_panic())
+    }
 }
 
 /// the two results around their first difference
@@ -215,8 +234,32 @@ impl Check for C10 {
     fn run_case(&self, fam: usize, idx: u64, ctx: &mut Ctx) {
         let (text, k) = self.fams[fam].1.get(idx);
         ctx.case_text(&text);
+        if k == usize::MAX {
+            // a history of two programs
+            let parts: Vec<String> = text.split('\u{1}').map(|s| s.to_string()).collect();
+            ctx.nontrivial();
+            for seed in 0..2u64 {
+                let both = run_history_under_seed(parts.clone(), seed);
+                let alone = run_under_seed(parts[1].clone(), seed);
+                ctx.count("cov.runs_under_distinct_seeds");
+                match (both, alone) {
+                    (Ok(b), Ok(a)) => {
+                        ctx.observe_str(&a.0);
+                        if b[1].0 != a.0 {
+                            ctx.violation("history-dependent", format!("the second program behaves differently after the first one ran on the same thread: {} — history {:?}", diff_context(&a.0, seed, &b[1].0, seed), parts));
+                            return;
+                        }
+                    }
+                    (Err(p), _) | (_, Err(p)) => {
+                        ctx.violation("panic", format!("{} build panicked in the history {:?}: {}", config_name(), parts, p));
+                        return;
+                    }
+                }
+            }
+            return;
+        }
         let want_orders = if k == 0 { 1 } else { factorial(k) };
-        let min_seeds = if fam + 1 == self.fams.len() { self.seed_cap.min(64) } else if k == 0 { 6 } else { 8 };
+        let min_seeds = if self.fams[fam].0 == "many-keys" { self.seed_cap.min(64) } else if k == 0 { 6 } else { 8 };
         let mut orders: BTreeSet<String> = BTreeSet::new();
         let mut first: Option<(String, u64)> = None;
         let mut seed = 0u64;
